@@ -107,7 +107,7 @@ def _run(job):
     return out
 
 
-def run_projects(tier, newline_variants=(True,), surround_variants=(False, True)):
+def run_projects(tier, newline_variants=(True,), surround_variants=(False, True, "after")):
     jobs = []
     for tk, iface, method, pres in P.combos(tier):
         for nl in newline_variants:
